@@ -8,6 +8,7 @@ import (
 	"path/filepath"
 	"regexp"
 	"runtime"
+	"runtime/debug"
 	"sort"
 	"strings"
 	"sync"
@@ -92,6 +93,43 @@ type gstate struct {
 	vr      rjson.ValueReader
 	scratch []byte
 	dst     []byte
+	// arena shared by a PAIR of goroutines: the even one only reads the input windows, the odd one
+	// only writes the gaps between them (as destinations). The regions are disjoint, so the calls
+	// are independent; but the input windows are two-index slices whose CAPACITY runs over the
+	// neighbour's gaps (seeded change C18r3-m2 over-read through the capacity).
+	arena *pairArena
+	odd   bool
+}
+
+type pairArena struct {
+	mem      []byte
+	tokens   [][2]int // [start,end) of windows holding a complete string token
+	contents [][2]int // [start,end) of windows holding bare string content (no quotes): the gap follows at once
+	gaps     [][2]int // [start,end) of destination gaps (one after every window)
+}
+
+var arenaTokens = []string{`"@ud83d"`, `"plain"`, `"a@nb"`, `"@ud83d@ude00"`, `"x@udbff"`, `""`, `"@u00e9@ud800"`}
+var arenaContents = []string{`@ud83d`, `tail@udbff`, `a@nb@ud800`, `plain`, `@ud83d@ude00@ud83d`}
+
+func newPairArena() *pairArena {
+	pa := &pairArena{}
+	add := func(in string, list *[][2]int) {
+		in = strings.ReplaceAll(in, "@", "\\")
+		st := len(pa.mem)
+		pa.mem = append(pa.mem, in...)
+		*list = append(*list, [2]int{st, len(pa.mem)})
+		gs := len(pa.mem)
+		pa.mem = append(pa.mem, make([]byte, 48)...)
+		pa.gaps = append(pa.gaps, [2]int{gs, len(pa.mem)})
+	}
+	for _, in := range arenaTokens {
+		add(in, &pa.tokens)
+	}
+	for _, in := range arenaContents {
+		add(in, &pa.contents)
+	}
+	// the mapping is complete before any goroutine starts; windows and gaps never overlap
+	return pa
 }
 
 const nOps = 30
@@ -108,6 +146,41 @@ func doOp(st *gstate, op int, d []byte, salt uint64) uint64 {
 	buf := &st.buf
 	if salt>>62&1 == 1 {
 		buf = nil
+	}
+	if st.arena != nil && op >= 9 && op <= 12 && salt>>59&1 == 1 {
+		if !st.odd {
+			// reader of the pair: two-index windows, so their capacity runs on over the gaps
+			if op == 11 && salt>>58&1 == 1 {
+				w := st.arena.contents[int(salt>>8)%len(st.arena.contents)]
+				b, p, e := rjson.UnescapeStringContent(st.arena.mem[w[0]:w[1]], nil)
+				return hashRes(p, e, h.Hash(b))
+			}
+			w := st.arena.tokens[int(salt>>8)%len(st.arena.tokens)]
+			in := st.arena.mem[w[0]:w[1]]
+			switch op {
+			case 9:
+				s, p, e := rjson.ReadString(in, nil)
+				return hashRes(p, e, h.HashString(s))
+			case 10:
+				b, p, e := rjson.ReadStringBytes(in, nil)
+				return hashRes(p, e, h.Hash(b))
+			case 11:
+				b, p, e := rjson.UnescapeStringContent(in[1:len(in)-1], nil)
+				return hashRes(p, e, h.Hash(b))
+			default:
+				s := "t"
+				p, e := rjson.DecodeString(in, &s, nil)
+				return hashRes(p, e, h.HashString(s))
+			}
+		}
+		// writer of the pair: a destination carved out of a gap (never overlapping a window)
+		g := st.arena.gaps[int(salt>>8)%len(st.arena.gaps)]
+		dst := st.arena.mem[g[0]:g[0]:g[1]]
+		b, p, e := rjson.ReadStringBytes(d, dst)
+		if len(b) > 40 {
+			b = b[:40]
+		}
+		return hashRes(p, e, h.Hash(b))
 	}
 	switch op {
 	case 0:
@@ -173,7 +246,17 @@ func doOp(st *gstate, op int, d []byte, salt uint64) uint64 {
 	case 11:
 		var b []byte
 		if buf == nil {
-			b, p, e := rjson.UnescapeStringContent(d, nil)
+			// on the content of the token when d is a quoted string (an empty key gives an empty,
+			// but capacity-carrying, slice of the shared document), then append to the result as
+			// a caller owning it would (seeded change C18r3-m1 returned a window into the input)
+			in := d
+			if len(d) >= 2 && d[0] == '"' && d[len(d)-1] == '"' {
+				in = d[1 : len(d)-1]
+			}
+			b, p, e := rjson.UnescapeStringContent(in, nil)
+			if e == nil {
+				b = append(b, '!')
+			}
 			return hashRes(p, e, h.Hash(b))
 		}
 		b, p, e := rjson.UnescapeStringContent(d, st.dst[:0])
@@ -389,6 +472,10 @@ func RunC18(c *Ctx) {
 		scripts[g] = s
 	}
 	runPass := func(observe bool, active *[G]int32, pairs *sync.Map) [][]uint64 {
+		arenas := make([]*pairArena, G/2)
+		for i := range arenas {
+			arenas[i] = newPairArena()
+		}
 		results := make([][]uint64, G)
 		var start sync.WaitGroup
 		var done sync.WaitGroup
@@ -398,8 +485,9 @@ func RunC18(c *Ctx) {
 			results[g] = make([]uint64, steps)
 			go func(g int) {
 				defer done.Done()
-				st := &gstate{}
+				st := &gstate{arena: arenas[g/2], odd: g%2 == 1}
 				res := results[g]
+				debug.SetPanicOnFault(true) // per goroutine: a store into a read-only shared input becomes a panic here
 				start.Wait()
 				defer func() {
 					if r := recover(); r != nil {
@@ -444,8 +532,12 @@ func RunC18(c *Ctx) {
 	})
 	// sequential oracle: the same scripts one after another
 	mism := 0
+	seqArenas := make([]*pairArena, G/2)
+	for i := range seqArenas {
+		seqArenas[i] = newPairArena()
+	}
 	for g := 0; g < G; g++ {
-		st := &gstate{}
+		st := &gstate{arena: seqArenas[g/2], odd: g%2 == 1}
 		for i, stp := range scripts[g] {
 			want := doOp(st, stp.op, pool[stp.in], stp.salt)
 			c.Rec.R.Evaluations += 3
